@@ -306,7 +306,7 @@ class Ctx:
         self.failures.append(Failure(kind, component, case, detail, klass))
 
     # correspondence: same request lines through model and Go
-    def correspond(self, component, lines, oracle=None, nontrivial=None, classify=None, go_env=None):
+    def correspond(self, component, lines, oracle=None, nontrivial=None, classify=None, go_env=None, canon=None):
         """oracle(line, go_out) -> None if the real code's answer satisfies the property on this
         input, else a string saying how it fails.  nontrivial(line, model_out) -> bool."""
         mo = run_model(lines)
@@ -315,6 +315,8 @@ class Ctx:
         mism = 0
         hist = {}
         for ln, m, g in zip(lines, mo, go):
+            if canon:
+                m, g = canon(m or ""), canon(g or "")
             cls = (m or "").split(" ")[0]
             hist[cls] = hist.get(cls, 0) + 1
             if nontrivial is None or nontrivial(ln, m):
